@@ -53,6 +53,11 @@ def dtlz(args):
     def body(ctx):
         ops.sym_pi()
         x = _point(ctx, n)
+        if args.get('near_one'):
+            # sub-box in which x**100 is neither ~0 nor 1 (the only region where DTLZ4's position
+            # variables matter): helps the solver to pick witnesses that reproduce on real doubles
+            for v in x[:m - 1]:
+                ctx.assume(And(v >= 0.99, v <= 0.999))
         f = prob.evaluate(Individual(x))
         ctx.output('f', list(f))
         ctx.check('one-value-per-objective', len(f) != m)
@@ -142,6 +147,9 @@ def configs(tier):
         for m in range(2, M + 1):
             out.append({'name': 'dtlz%d-m%d' % (fam, m), 'task': 'dtlz', 'args': {'family': fam, 'm': m},
                         'weight': m * 10, 'engine': {'validate': 5, 'first_timeout_s': 0.5}})
+    for m in (2, 3):
+        out.append({'name': 'dtlz4-m%d-positions-near-one' % m, 'task': 'dtlz', 'args': {'family': 4, 'm': m, 'near_one': True},
+                    'weight': m * 10, 'engine': {'validate': 5, 'first_timeout_s': 0.5}})
     for fam in (1, 2, 4):
         for m in (2, 3):
             out.append({'name': 'dtlz%d-front-m%d' % (fam, m), 'task': 'dtlz_front', 'args': {'family': fam, 'm': m},
